@@ -362,6 +362,138 @@ PROPS["C17"] = dict(
 )
 
 
+def stage_C20(run):
+    """Real round trips on the implementation (harness `codec` mode) and tree-level comparison of
+    serde_json's trees with the Coq codec model's (`json` mode on both sides)."""
+    import json as _json
+    from verif import run_side, HARNESS, MODEL
+    from codec_cmp import compare
+    idx = [i for i, m in enumerate(run.metas) if m.get("stream") not in ("perm", "stub")]
+    d = run.dir
+    done = os.path.join(d, "DONE-codec.json")
+    if os.path.exists(done):
+        saved = _json.load(open(done))
+    else:
+        inp = os.path.join(d, "codec.sexp")
+        with open(inp, "w") as f:
+            f.write("\n".join(run.programs[i] for i in idx) + "\n")
+        problems = []
+        for binary, mode, ext in ((HARNESS, "codec", ".rt"), (HARNESS, "json", ".jimpl"), (MODEL, "json", ".jmodel")):
+            rc, out = run_side(binary, mode, inp, os.path.join(d, "codec" + ext))
+            if rc != 0:
+                problems.append("%s %s rc=%d %s" % (os.path.basename(binary), mode, rc, out[-200:]))
+
+        def rd(ext):
+            try:
+                return open(os.path.join(d, "codec" + ext)).read().splitlines()
+            except OSError:
+                return []
+        saved = {"rt": rd(".rt"), "jimpl": rd(".jimpl"), "jmodel": rd(".jmodel"), "problems": problems}
+        with open(done, "w") as f:
+            _json.dump(saved, f)
+    alarms, disagreements, where = [], [], ""
+    nt = 0
+    for k, i in enumerate(idx):
+        rt = saved["rt"][k] if k < len(saved["rt"]) else "(missing)"
+        if rt != "(codec ok)":
+            alarms.append((i, "C20: real serde round trip failed: " + rt))
+        a = saved["jimpl"][k] if k < len(saved["jimpl"]) else ""
+        b = saved["jmodel"][k] if k < len(saved["jmodel"]) else ""
+        dsc = compare(a, b)
+        if dsc:
+            disagreements.append(i)
+            where = where or dsc
+        if len(a) > 1500:
+            nt += 1
+    return alarms, disagreements, where, {"round_trips": len(idx), "tree_comparisons": len(idx),
+                                          "tree_disagreements": len(disagreements), "nontrivial": nt,
+                                          "problems": saved.get("problems", [])}
+
+
+PROPS["C20"] = dict(
+    title="Serialised ASTs and instruction stacks round-trip exactly",
+    projection="full",
+    monitor=None,
+    stage=stage_C20,
+    domain="all",
+    rule="every corpus / generated program (finite float literals only): (1) on the implementation, serde_json "
+         "to_string -> from_str -> equality, text idempotence, equal analysis, for the AST, every block's stack, the global "
+         "stack and the error list; (2) serde_json's trees compared with the Coq codec model's enc_* trees; non-trivial = "
+         "serialised form longer than 1500 bytes; distinct = distinct program texts",
+    nontrivial=lambda prog, out, monline="": len(out) > 1500,
+    level_text="Coq theorems dec (enc x) = Some x for every codec type at the JSON-tree level (all values, no size bound) and "
+               "analysis-after-round-trip by congruence; the tree-level model is tied to serde_json by comparing trees on "
+               "every generated program; the real text-level round trip is run on the implementation. PARTIAL: serde_json's "
+               "text layer (number/float formatting, string escaping) is outside the theorem.",
+    assumptions=["text layer of serde_json not modelled (floats and chars carried as opaque bit patterns / code points)",
+                 "HashMap attribute order abstracted: objects compared as maps",
+                 "body mirror inside FunctionDeclaration not modelled"],
+)
+
+
+def nt_control(prog, out, monline=""):
+    return out.count("(SetLabel ") >= 4
+
+
+PROPS["C10"] = dict(
+    title="Labels are set once and every jump target exists",
+    projection="labels",
+    monitors=[("C10u", "all"), ("C10r", "accepted")],
+    domain="all",
+    rule="corpus + generated programs with nested and sibling if / else-if / loop constructs; uniqueness is judged on every "
+         "output, resolution on accepted ones; non-trivial = at least four labels set in the implementation's output; "
+         "distinct = distinct program texts",
+    nontrivial=nt_control,
+    level_text="Coq theorems over the model for ALL programs: no label is set twice in a function's stack (run_labels_unique) "
+               "and every label named by a jump or conditional is registered, i.e. was produced by the label generator "
+               "(run_targets_registered). PARTIAL for the second half of the property: that every named target is also SET in "
+               "accepted programs is not yet a theorem; it is decided on the implementation's outputs by the exact monitor "
+               "chk_C10_resolve (and by C05's execution monitor) and tied by the correspondence on label layout.",
+    assumptions=["resolution half: monitor + correspondence only (theorem covers registration, not setting)"],
+)
+
+PROPS["C11"] = dict(
+    title="Each accepted function ends in one return of the right form",
+    projection="returns",
+    monitors=[("C11", "accepted")],
+    domain="accepted",
+    rule="accepted programs with returns nested at any depth in if / else-if / else / loop bodies; non-trivial = the "
+         "implementation's output contains a JumpFunctionReturn; distinct = distinct program texts",
+    nontrivial=lambda prog, out, monline="": out.startswith("(out (errors) ") and "(JumpFunctionReturn " in out,
+    level_text="Coq theorems over the model for ALL programs: in every function stack a with-label return is preceded by a "
+               "jump-to-return and a plain return by none, and the block's flag equals 'a jump-to-return occurred' "
+               "(run_return_form); functions without nested blocks never emit a jump-to-return. PARTIAL: 'exactly one return "
+               "instruction, and it is last' for accepted programs is decided by the exact monitor chk_C11 on the "
+               "implementation's output and tied by the correspondence; it is not yet a theorem.",
+    assumptions=["'exactly one, last' clause: monitor + correspondence only"],
+)
+
+
+def extra_C18(prog, impl, monline):
+    if "(parent-ok 0)" in impl:
+        return "C18: a child's parent link is not the block that lists it"
+    return None
+
+
+PROPS["C18"] = dict(
+    title="The block-state tree mirrors the source nesting",
+    projection="tree",
+    monitors=[("C18", "all")],
+    extra_check=extra_C18,
+    domain="all",
+    rule="corpus + generated programs with nested blocks; the monitor checks tree shape against the source and the "
+         "subsequence relation of every block's stack to its parent's; parent links are checked by the harness with "
+         "Rc::ptr_eq; non-trivial = at least three blocks in the implementation's output; distinct = distinct program texts",
+    nontrivial=lambda prog, out, monline="": out.count("(block ") >= 3,
+    level_text="Coq theorems over the model for ALL programs: the tree of blocks has exactly the shape of the source nesting "
+               "(else-if blocks are siblings; an else wins over an else-if), every block's stack is an order-preserving "
+               "subsequence of its parent's and of the root's. PARTIAL: the value-table clause (each block's table holds exactly "
+               "the names declared directly in it) is covered by the correspondence on the tree projection only; parent links "
+               "are positional in the model and checked with Rc::ptr_eq by the harness.",
+    assumptions=["value-table clause and parent links: correspondence / harness check only"],
+)
+
+
 # ------------------------------------------------------------------------------------------------
 # source lints (DESIGN.md §6.2)
 
@@ -434,12 +566,24 @@ def judge(prop, prog, impl, model, monline):
             agree = False
             where = "unreadable output: %s" % e
     from verif import mon_get
-    return {"agree": agree, "where": where, "monitor": mon_get(monline, spec["monitor"]) if spec.get("monitor") else None}
+    ms = [mon_get(monline, m) for m, d in monitors_of(spec) if dom_ok(d, impl, monline)]
+    return {"agree": agree, "where": where, "monitor": (None if not ms else all(x is not False for x in ms))}
+
+
+def monitors_of(spec):
+    if spec.get("monitors"):
+        return spec["monitors"]
+    if spec.get("monitor"):
+        return [(spec["monitor"], spec.get("domain", "all"))]
+    return []
 
 
 def in_domain(prop, impl, monline):
+    return dom_ok(PROPS[prop].get("domain", "all"), impl, monline)
+
+
+def dom_ok(dom, impl, monline):
     from verif import mon_field
-    dom = PROPS[prop].get("domain", "all")
     if dom == "all":
         return True
     if impl.startswith("(panic"):
@@ -482,20 +626,21 @@ def analyse(prop, run):
             if not where:
                 where = v["where"]
         dom = in_domain(prop, impl, monline)
-        if spec.get("monitor"):
-            if not dom or v["monitor"] is None:
+        for mname, mdom in monitors_of(spec):
+            val = mon_get(monline, mname)
+            if not dom_ok(mdom, impl, monline) or val is None:
                 mon_na += 1
-            elif v["monitor"]:
+            elif val:
                 mon_true += 1
             else:
                 mon_false += 1
                 cls = spec.get("known_class")
-                k = cls(prog, impl, monline) if cls else None
+                k = cls(prog, impl, monline, mname) if cls else None
                 if k:
                     if k not in known:
                         known.append(k)
                 else:
-                    alarms.append((i, "chk_%s = false on the implementation's output" % spec["monitor"]))
+                    alarms.append((i, "chk_%s = false on the implementation's output" % mname))
         if extra:
             e = extra(prog, impl, monline)
             if e:
@@ -507,6 +652,14 @@ def analyse(prop, run):
                 if len(samples) < 3 and len(prog) < 1500:
                     samples.append({"program": prog, "stream": stream,
                                     "projected_output": _short(impl, spec["projection"])})
+    stage_stats = {}
+    if spec.get("stage"):
+        salarms, sdis, swhere, stage_stats = spec["stage"](run)
+        alarms += salarms
+        for i in sdis:
+            if i not in disagreements:
+                disagreements.append(i)
+        where = where or swhere
     cross_stats = {}
     if spec.get("cross"):
         calarms, cross_stats = spec["cross"](run)
@@ -527,7 +680,7 @@ def analyse(prop, run):
                              "panics": sum(1 for o in run.impl if o.startswith("(panic")),
                              "error_kinds": kinds,
                              "mean_output_bytes": int(sum(len(o) for o in run.impl) / max(1, len(run.impl)))},
-            "monitor": {"true": mon_true, "false": mon_false, "not_applicable": mon_na}, "cross": cross_stats}
+            "monitor": {"true": mon_true, "false": mon_false, "not_applicable": mon_na}, "cross": cross_stats, "stage": stage_stats}
 
 
 def _short(impl, proj):
@@ -545,9 +698,11 @@ def alarm_on(prop, text):
     impl, model, mon, problems = run_programs([text], os.path.join(CACHE, "shrink"), shards=1)
     if problems:
         return False
-    if spec.get("monitor") and in_domain(prop, impl[0], mon[0]) and mon_get(mon[0], spec["monitor"]) is False:
-        cls = spec.get("known_class")
-        return not (cls and cls(text, impl[0], mon[0]))
+    for mname, mdom in monitors_of(spec):
+        if dom_ok(mdom, impl[0], mon[0]) and mon_get(mon[0], mname) is False:
+            cls = spec.get("known_class")
+            if not (cls and cls(text, impl[0], mon[0], mname)):
+                return True
     extra = spec.get("extra_check")
     return bool(extra and extra(text, impl[0], mon[0]))
 
